@@ -361,7 +361,8 @@ BadExprs(t) ==      \* <<expression, context in which it is offered>>; context \
         \* unknown / dead references and markers outside arrange
         \o <<CN("zz"), Fn2("add", CN("zz"), LitI(1)), Col(999)>>
         \o Flat(MapS(a, LAMBDA c : <<Mark("descending", Col(c)), Fn2("add", Mark("nulls_last", Col(c)), LitI(1)),
-                                     Agg("sum", Mark("descending", Col(c)))>>))
+                                     Agg("sum", Mark("descending", Col(c))), Cast(Mark("descending", Col(c)), "float"),
+                                     Case1D(Fn2("gt", Col(c), LitI(0)), Mark("nulls_first", Col(c)), LitI(0))>>))
 
 MovesErr(h, kn) ==
     LET i  == Len(h)
@@ -398,6 +399,7 @@ MovesErr(h, kn) ==
         \o <<MSelect(i, <<Col(999)>>), MRename(i, <<[c |-> [k |-> "str", n |-> "zz"], n |-> "y"]>>)>>
         \o (IF Len(t.vis) >= 2 THEN <<MRename(i, <<[c |-> Col(t.vis[1]), n |-> t.nm[t.vis[2]]]>>)>> ELSE <<>>)   \* duplicate name
         \o MapS(a, LAMBDA c : MArrange(i, <<Ord(Fn2("add", Col(c), CN("zz")), FALSE, "first")>>))
+        \o MapS(a, LAMBDA c : MArrange(i, <<Ord(Fn2("add", Mark("descending", Col(c)), LitI(1)), FALSE, "first")>>))      \* a marker below the top of the key
         \o (IF t.part # <<>> THEN <<MSlice(i, 2, 0)>> ELSE <<>>)                                  \* slice_head on a grouped table
         \o (IF t.part # <<>> THEN MapS(SelectSeq(Take(iv, 2), LAMBDA c : c \notin {t.part[q] : q \in DOMAIN t.part}),
                                        LAMBDA c : MSelect(i, <<Col(c)>>)) ELSE <<>>)           \* hide the grouping column
